@@ -133,7 +133,8 @@ func matchPropFilterField(filter PropFilter, field *ical.Prop) (bool, error) {
 		if !match {
 			return false, nil
 		}
-	} else if filter.TextMatch != nil {
+	}
+	if filter.TextMatch != nil {
 		if !matchTextMatch(*filter.TextMatch, field.Value) {
 			return false, nil
 		}
